@@ -314,6 +314,23 @@ func JobPost(j *Job) {
 	park(j, 1)
 }
 
+var yieldOn bool
+
+// SetYield switches the gates inside job bodies on (a job then also parks
+// between two rounds of its work, not only before it starts and before its
+// completion is applied).
+func SetYield(on bool) { yieldOn = on }
+
+// JobYield parks a job in the middle of its body.
+//
+//go:norace
+func JobYield(j *Job) {
+	if j == nil || !j.active || !yieldOn {
+		return
+	}
+	park(j, 2)
+}
+
 //go:norace
 func Posted(j *Job) {
 	if j == nil || !j.active {
